@@ -39,13 +39,6 @@ func (k *chk) num(check string, got, want int) {
 // knownSets: defects recorded under one narrow key = the exact set of failed checks of a path.
 // Any other set of failed checks on that path is reported check by check (new violation).
 var knownSets = map[string]string{
-	"mdnsq|dst4-mac":                              "ip4-multicast-sent-to-ethernet-broadcast",
-	"llmnrq|dst4-mac,ip4-dst":                     "llmnr-query-to-224.0.0.251-ethernet-broadcast",
-	"ssdp|dst4-mac,ssdp-request-line":             "ssdp-msearch-lf-line-ends-ethernet-broadcast",
-	"sleepproxy|udp6-checksum":                    "udp6-checksum-zero",
-	"nbnsq|eth-src-is-host":                       "nbns-ether-src-is-caller-mac",
-	"discover|dhcp-ciaddr":                        "discover-unset-ciaddr-keeps-stale-buffer-bytes",
-	"release|dhcp-options":                        "dhcp-release-without-client-and-server-id",
 }
 
 // flush reports the failed checks.
@@ -471,9 +464,7 @@ func oracle(r *lib.Run, kind string, c nicCfg, a []string, obs string) {
 					ci = u(1)
 				}
 				k.eq("dhcp-ciaddr", pl[12:16], ci)
-				if a[2] != "-" {
-					k.eq("dhcp-xid", pl[4:8], u(2))
-				}
+				k.eq("dhcp-xid", pl[4:8], u(2))
 				want[53], want[55] = []byte{1}, []byte{53, 1, 121, 3, 6, 15}
 				if a[3] != "-" {
 					want[12] = u(3)
@@ -489,9 +480,6 @@ func oracle(r *lib.Run, kind string, c nicCfg, a []string, obs string) {
 			}
 			if len(want) != len(d) {
 				k.fail("dhcp-options", "got %d options want %d", len(d), len(want))
-				if !(kind == "release" && len(d) == 1 && len(d[53]) == 1 && d[53][0] == 7) {
-					k.fail("dhcp-options-other", "unexpected option set %v", d)
-				}
 				break
 			}
 			for c, v := range want {
@@ -503,7 +491,7 @@ func oracle(r *lib.Run, kind string, c nicCfg, a []string, obs string) {
 			k.path = kind
 			dip, port, qt := []byte{224, 0, 0, 251}, 5353, 255
 			if kind == "llmnrq" {
-				dip, port, qt = []byte{224, 0, 0, 252}, 5355, 255
+				dip, port, qt = []byte{224, 0, 0, 252}, 5355, 12
 			}
 			pl := k.udp4(f, nil, c.hostMAC, c.hostIP.AsSlice(), dip, port, port, true)
 			k.dnsQuery(pl, -1, strings.Split(strings.TrimSuffix(string(u(0)), "."), "."), qt, 255)
